@@ -26,9 +26,10 @@ EXTENDS ScriptVM
 CONSTANT ScriptOf(_)      \* name of a "scr" element -> its tokens
 
 -----------------------------------------------------------------------------
-Base(c0) == [sv |-> "base", fl |-> c0.fl, tx |-> c0.tx]
-V0(c0)   == [sv |-> "v0",   fl |-> c0.fl, tx |-> c0.tx]
-Tap(c0)  == [sv |-> "tap",  fl |-> c0.fl, tx |-> c0.tx]
+Base(c0) == [sv |-> "base", fl |-> c0.fl, tx |-> c0.tx, ax |-> FALSE]
+V0(c0)   == [sv |-> "v0",   fl |-> c0.fl, tx |-> c0.tx, ax |-> FALSE]
+\* ax: the witness carries an annex (taproot signatures commit to it)
+Tap(c0, annex) == [sv |-> "tap", fl |-> c0.fl, tx |-> c0.tx, ax |-> annex]
 
 IsWitnessProgram(script) ==
     /\ Len(script) = 2
@@ -45,6 +46,12 @@ IsP2SH(script) ==
     /\ script[3].op = "OP_EQUAL"
 
 IsPushOnly(script) == \A i \in 1..Len(script) : ~script[i].tr /\ (IsPushTok(script[i]) \/ script[i].op = "OP_RESERVED")
+
+\* a script that travels as an element: a named "scr" element, or the empty
+\* element for the empty script (named "empty")
+IsScr(e) == e.t = "scr" \/ e.n = 0
+ScrName(e) == IF e.n = 0 THEN "empty" ELSE e.k
+ScriptOfElem(e) == IF e.n = 0 THEN <<>> ELSE ScriptOf(e.k)
 
 IsAnchor(ver, prog) == ver = 1 /\ prog = Raw(<<78, 115>>)
 IsAnnex(e) == e.n > 0 /\ e.t = "raw" /\ e.b[1] = 80
@@ -97,16 +104,16 @@ ExecWitness(stk, script, c, budget, ph) ==
     ELSE LET r == RunScript(stk, c, script, budget, ph) IN
          [ok |-> r.err = "" /\ Len(r.st) = 1 /\ AsBool(r.st[1]), tr |-> r.tr, run |-> TRUE]
 
-\* schnorr key-path signature check
-KeyPathOK(sig, prog) ==
-    /\ sig.t = "sig" /\ sig.b[2] = 64 /\ sig.b[3] = 3
+\* schnorr key-path signature check (sigversion code 3, with an annex 4)
+KeyPathOK(sig, prog, annex) ==
+    /\ sig.t = "sig" /\ sig.b[2] = 64 /\ sig.b[3] = (IF annex THEN 4 ELSE 3)
     /\ (sig.n = 64 \/ sig.b[1] \in {1, 2, 3, 129, 130, 131})
     /\ prog.t = "key" /\ prog.b[1] = 32 /\ sig.k = prog.k
 
 CtrlSizeOK(e) == e.n >= 33 /\ e.n <= 4129 /\ (e.n - 33) % 32 = 0
 Commits(ctrl, scrE, prog) ==
     /\ ctrl.t = "ctrl" /\ ctrl.b[2] = 1
-    /\ scrE.t = "scr" /\ ctrl.k = scrE.k
+    /\ IsScr(scrE) /\ ctrl.k = ScrName(scrE)
     /\ prog.t = "key" /\ prog.k = "TAP"
 
 \* VerifyWitnessProgram: result [ok, tr, run, stk]; stk = the stack the inner
@@ -117,10 +124,10 @@ VerifyWitnessProgram(c0, wit, ver, prog, isP2SH) ==
         IF prog.n = 32 THEN
             IF Len(wit) = 0 THEN no(FALSE)
             ELSE LET scrE == wit[Len(wit)]  stk == SubSeq(wit, 1, Len(wit) - 1) IN
-                 IF ~Assert(scrE.t = "scr" \/ HashOf("sha256", scrE) # prog, <<"witness script is not a named script", scrE>>) THEN no(FALSE)
+                 IF ~Assert(IsScr(scrE) \/ HashOf("sha256", scrE) # prog, <<"witness script is not a named script", scrE>>) THEN no(FALSE)
                  ELSE IF HashOf("sha256", scrE) # prog THEN no(FALSE)
-                 ELSE IF ScriptLen(ScriptOf(scrE.k)) > 10000 THEN no(FALSE)
-                 ELSE LET r == ExecWitness(stk, ScriptOf(scrE.k), V0(c0), 0, "wscript") IN
+                 ELSE IF ScriptLen(ScriptOfElem(scrE)) > 10000 THEN no(FALSE)
+                 ELSE LET r == ExecWitness(stk, ScriptOfElem(scrE), V0(c0), 0, "wscript") IN
                       [ok |-> r.ok, tr |-> r.tr, run |-> r.run, stk |-> stk]
         ELSE IF prog.n = 20 THEN
             IF Len(wit) # 2 THEN no(FALSE)
@@ -132,12 +139,12 @@ VerifyWitnessProgram(c0, wit, ver, prog, isP2SH) ==
         ELSE IF Len(wit) = 0 THEN no(FALSE)
         ELSE LET annex == Len(wit) >= 2 /\ IsAnnex(wit[Len(wit)])
                  w == IF annex THEN SubSeq(wit, 1, Len(wit) - 1) ELSE wit IN
-             IF Len(w) = 1 THEN no(KeyPathOK(w[1], prog))
+             IF Len(w) = 1 THEN no(KeyPathOK(w[1], prog, annex))
              ELSE LET ctrl == w[Len(w)]  scrE == w[Len(w) - 1]  stk == SubSeq(w, 1, Len(w) - 2) IN
                   IF ~CtrlSizeOK(ctrl) THEN no(FALSE)
                   ELSE IF ~Commits(ctrl, scrE, prog) THEN no(FALSE)
                   ELSE IF ctrl.b[1] = 192 THEN
-                       LET r == ExecWitness(stk, ScriptOf(scrE.k), Tap(c0), 50 + WitnessSize(wit), "tapscript") IN
+                       LET r == ExecWitness(stk, ScriptOfElem(scrE), Tap(c0, annex), 50 + WitnessSize(wit), "tapscript") IN
                        [ok |-> r.ok, tr |-> r.tr, run |-> r.run, stk |-> stk]
                   ELSE no(~Has(c0, "DISCOURAGE_UPGRADABLE_TAPROOT_VERSION"))
     ELSE IF ~isP2SH /\ IsAnchor(ver, prog) THEN no(TRUE)
@@ -169,9 +176,9 @@ VerifyScript(sp, c0) ==
         ELSE
         LET redE == r1.st[Len(r1.st)]
             stk3 == SubSeq(r1.st, 1, Len(r1.st) - 1) IN
-        IF ~Assert(redE.t = "scr", <<"redeem script is not a named script", redE>>) THEN Res(FALSE, t12)
+        IF ~Assert(IsScr(redE), <<"redeem script is not a named script", redE>>) THEN Res(FALSE, t12)
         ELSE
-        LET red == ScriptOf(redE.k)
+        LET red == ScriptOfElem(redE)
             r3 == RunScript(stk3, b, red, 0, "redeem")
             t123 == HandOver(t12, stk3, TRUE) \o r3.tr IN
         IF r3.err # "" THEN Res(FALSE, t123)
